@@ -163,6 +163,10 @@ def run(rep, tier, seed, tr_errors):
     # constraint expressions are always exercised (several methods), not left to chance
     for m_, w_ in (("least_squares", "boukamp"), ("leastsq", "modulus"), ("powell", "proportional")) if tier == "quick" else [(m__, w__) for m__ in methods for w__ in weights[:2]]:
         plan.append((FAMILIES[2], m_, w_, 0.0, True))
+    # constrained fits whose generating values satisfy the constraint (R_1 = 2 R_0 in families 0 and 2) while the tied parameter
+    # starts elsewhere: the default method/weight must recover the generating values here too
+    for fam_ in (FAMILIES[0], FAMILIES[2]) * (1 if tier == "quick" else 4):
+        plan.append((fam_, "auto", "auto", 0.0, True))
     n_auto = 2 if tier == "quick" else 12
     for i in range(n_auto):
         plan.append((FAMILIES[i % len(FAMILIES)], "auto", "auto", 0.0, False))
